@@ -20,26 +20,27 @@ import (
 const modulePath = "github.com/lidofinance/dc4bc"
 
 type Prog struct {
-	Fset      *token.FileSet
-	Pkgs      []*packages.Package
-	SSA       *ssa.Program
-	Funcs     map[string]*ssa.Function // by key (types.Func.FullName style)
-	PkgByPath map[string]*types.Package
-	PkgByName map[string][]*types.Package
-	Spec      *Spec
-	RepoDir   string
-	modsets   map[*ssa.Function]map[string]bool
-	implCache map[string][]implTarget
-	allTypes  []types.Type
-	fvAll     map[*ssa.Function]bool
-	fvBound   map[*ssa.Function]bool
-	fnIDs     map[string]int
-	mu, mu2   sync.Mutex
-	tblOnce   sync.Once
-	cglobals  map[string]*constGlobal
-	VerifDir  string
-	tbl       *Tables
-	tblErr    error
+	Fset       *token.FileSet
+	Pkgs       []*packages.Package
+	SSA        *ssa.Program
+	Funcs      map[string]*ssa.Function // by key (types.Func.FullName style)
+	PkgByPath  map[string]*types.Package
+	PkgByName  map[string][]*types.Package
+	Spec       *Spec
+	RepoDir    string
+	modsets    map[*ssa.Function]map[string]bool
+	implCache  map[string][]implTarget
+	allTypes   []types.Type
+	fvAll      map[*ssa.Function]bool
+	fvBound    map[*ssa.Function]bool
+	fnIDs      map[string]int
+	mu, mu2    sync.Mutex
+	tblOnce    sync.Once
+	cglobals   map[string]*constGlobal
+	privAllocs map[*ssa.Function][]*ssa.Alloc
+	VerifDir   string
+	tbl        *Tables
+	tblErr     error
 }
 
 func funcKey(fn *ssa.Function) string {
